@@ -129,6 +129,7 @@ fn main() {
 		"record-canon" => canonv::record(&args),
 		"record-serde" => serderec::record(&args),
 		"record-parse" => parsev::record(&args),
+		"record-macro" => macrov::record(&args),
 		"record-nav" => navv::record(&args),
 		"record-obj" => objv::record(&args),
 		"record-order" => orderv::record(&args),
